@@ -97,7 +97,9 @@ func VerifH_C09_Builtins() {
 }
 
 // c09BuiltinExpr picks a built-in, an arity 0..3 and argument kinds from the first nargs kinds.
-func c09BuiltinExpr(nargs int) string {
+func c09BuiltinExpr(nargs int) string { return c09BuiltinExprM(c09Args[:nargs]) }
+
+func c09BuiltinExprM(args []string) string {
 	f := c09Builtins[verifChoose(len(c09Builtins))]
 	arity := verifChoose(4)
 	expr := "$" + f + "("
@@ -106,7 +108,7 @@ func c09BuiltinExpr(nargs int) string {
 		if i > 0 {
 			expr += ", "
 		}
-		menu := c09Args[:nargs]
+		menu := args
 		if arity == 3 {
 			menu = small
 			if i == 2 {
@@ -129,10 +131,12 @@ func VerifH_C09_Nodes() {
 	c09Check(c09NodeExpr(len(c09Args)), c09Doc())
 }
 
-func c09NodeExpr(nargs int) string {
+func c09NodeExpr(nargs int) string { return c09NodeExprM(c09Args[:nargs]) }
+
+func c09NodeExprM(args []string) string {
 	t := c09NodeTemplates[verifChoose(len(c09NodeTemplates))]
-	x := c09Args[verifChoose(nargs)]
-	y := c09Args[verifChoose(nargs)]
+	x := args[verifChoose(len(args))]
+	y := args[verifChoose(len(args))]
 	expr := ""
 	for i := 0; i < len(t); i++ {
 		switch t[i] {
